@@ -1861,6 +1861,13 @@ class AbsPaths:
                     return r     # a nondeterministic call: the alternative successor states (only `outcomes` follows them)
                 if r:
                     return
+        if re.search(r"ops::Not.*::not$|ops::bit::Not.*::not$", n) and site.args:
+            # `!flag` on a `&bool` is a call of `<&bool as Not>::not`
+            av = deref_value(st, self._eval_operand(st, site.args[0]))
+            d = t["dest"]
+            if av is not None and av[0] == "const" and av[1] in ("true", "false") and not d["p"]:
+                st[d["l"]] = ("const", "false" if av[1] == "true" else "true")
+                return
         if n.endswith("intrinsics::discriminant_value") and site.args:
             # derived PartialEq / Hash read the discriminant through this intrinsic: the index of a known variant
             av = self._eval_operand(st, site.args[0])
